@@ -242,15 +242,19 @@ fn emit_expression_ctx(
         Expression::Int(value) => out.push(json!(value)),
         Expression::Float(value) => out.push(float_to_json(*value)),
         Expression::Str(value) => {
-            // Parse the string content for {expr} interpolations
-            let dynamic = parse_dynamic_string(value).unwrap_or_else(|_| DynamicString {
-                parts: vec![DynamicStringPart::Text(value.clone())],
+            // Parse the string content for {expr} interpolations and inline logic
+            let dynamic = parse_dynamic_string(value).unwrap_or_else(|error| {
+                if let Some(ctx) = context {
+                    ctx.keep_expression_error(error);
+                }
+                DynamicString::default()
             });
             out.push(json!("str"));
             // If there are no expression parts (plain string or empty), emit as literal text
-            let has_expressions = dynamic.parts.iter().any(|p| {
-                !matches!(p, DynamicStringPart::Text(_))
-            });
+            let has_expressions = dynamic
+                .parts
+                .iter()
+                .any(|p| !matches!(p, DynamicStringPart::Text(_)));
             if !has_expressions {
                 // Plain string (possibly empty) — emit as single text token
                 let text: String = dynamic
@@ -279,9 +283,25 @@ fn emit_expression_ctx(
                             out.push(json!("out"));
                             out.push(json!("/ev"));
                         }
-                        DynamicStringPart::Sequence(_) | DynamicStringPart::Conditional { .. } => {
-                            // Sequences inside string literals not supported here; emit raw
-                            out.push(json!(format!("^{value}")));
+                        logic @ (DynamicStringPart::Sequence(_)
+                        | DynamicStringPart::Conditional { .. }) => {
+                            // A sequence or conditional is a container of its own, with
+                            // paths built from the place where it stands.
+                            let result = match (context, scope) {
+                                (Some(ctx), Some(scope)) => emit_dynamic_string_parts(
+                                    std::slice::from_ref(logic),
+                                    out,
+                                    scope,
+                                    ctx,
+                                ),
+                                _ => Err(CompilerError::invalid_source(format!(
+                                    "the initial value of a global variable cannot hold a \
+                                     sequence or a conditional: \"{value}\""
+                                ))),
+                            };
+                            if let (Err(error), Some(ctx)) = (result, context) {
+                                ctx.keep_expression_error(error);
+                            }
                         }
                     }
                 }
